@@ -51,7 +51,8 @@ def _cap(x):
 
 
 def elem(vs, attr=0):
-    return frozenset((p, _cap(L + 1), max(k - 1, 0), a | attr) for p, L, k, a in vs)
+    # a module-level table whose elements are all constants (`<globalflat>`) has nothing mutable below it
+    return frozenset((p, _cap(L + 1), max(k - 1, 0), a | attr) for p, L, k, a in vs if not p.startswith("<globalflat>"))
 
 
 def box(vs):
@@ -111,6 +112,7 @@ class InputMut(object):
         self.funcs = [f for f in index.nontest_funcs()]
         self.byqual = {f.qual: f for f in self.funcs}
         self.rounds = 0
+        self._modc = {}
         self.immutable = {f.qual: immutable_params(f.node) for f in self.funcs}
         self._solve()
 
@@ -134,6 +136,35 @@ class InputMut(object):
                 if not r <= self.rets.get(f.qual, EMPTY):
                     self.rets[f.qual] = self.rets.get(f.qual, EMPTY) | r
                     changed = True
+
+    def is_module_container(self, dotted):
+        """`cdd.x.NAME` is a module-level variable bound (once) to a dict / list / set display or constructor call"""
+        if dotted in self._modc:
+            return self._modc[dotted]
+        ok = False
+        mv = self.index.module_var(dotted)
+        if mv is not None and not mv[0].is_test and len(mv[1]) == 1:
+            v = getattr(mv[1][0], "value", None)
+            ok = isinstance(v, (ast.Dict, ast.List, ast.Set, ast.DictComp, ast.ListComp, ast.SetComp)) or (
+                isinstance(v, ast.Call) and isinstance(v.func, ast.Name) and v.func.id in ("dict", "list", "set", "OrderedDict", "defaultdict", "deque")
+            )
+        if ok and isinstance(v, (ast.Dict, ast.List, ast.Set)):
+            vals = v.values if isinstance(v, ast.Dict) else v.elts
+            if all(isinstance(x, ast.Constant) or (isinstance(x, ast.Tuple) and all(isinstance(y, ast.Constant) for y in x.elts)) for x in vals):
+                ok = "flat"
+        if ok and isinstance(v, ast.DictComp) and isinstance(v.key, (ast.Name, ast.Constant)) and isinstance(v.value, (ast.Name, ast.Constant)):
+            ok = "flat"  # {v: k for k, v in <table>.items()}: an inverse table of scalars
+        self._modc[dotted] = ok
+        return ok
+
+    def global_mutations(self):
+        """[(function qual, module variable, level, witness)] — a function mutating (part of) a module-level container"""
+        out = []
+        for (qual, p), d in self.muts.items():
+            if p.startswith("<global"):
+                for L, w in d.items():
+                    out.append((qual, p.partition(">")[2], L, w))
+        return out
 
     def mutates(self, qual, param):
         """{level: (node, via-or-None, through-an-attribute)} — empty when the parameter's object graph is left alone"""
@@ -174,6 +205,32 @@ class _Walker(object):
         imm = self.o.immutable.get(self.f.qual, ())
         env = {p: (EMPTY if p in imm else frozenset([(p, 0, 0, 0)])) for p in self.f.params}
         self._body(self.f.node.body, env, self.f)
+        # `@deco def f(a, b)` where deco is a package function returning a nested `wrapper(a, b)`: a call of f runs the
+        # wrapper, which works on f's arguments too (`state["parsed"].append(...)` around the wrapped call)
+        for d in self.f.node.decorator_list:
+            dq = self.index.resolve(self.f.mod, d.func if isinstance(d, ast.Call) else d, self.f.outer)
+            tf = self.index.funcs.get(dq or "")
+            if tf is None or tf.mod.is_test:
+                continue
+            returned = {r.value.id for r in iter_own(tf.node) if isinstance(r, ast.Return) and isinstance(r.value, ast.Name)}
+            for w in tf.node.body:
+                if isinstance(w, ast.FunctionDef) and w.name in returned:
+                    wnames = [x.arg for x in w.args.posonlyargs + w.args.args]
+                    fnames = [x.arg for x in self.f.node.args.posonlyargs + self.f.node.args.args]
+                    env2 = {}
+                    for wn, fn_ in zip(wnames, fnames):
+                        env2[wn] = env.get(fn_, EMPTY)
+                    for pn in tf.params[:1]:
+                        env2[pn] = FuncVal("qual", self.f.qual)
+                    self.depth += 1
+                    if not hasattr(self, "_ret_stack"):
+                        self._ret_stack = []
+                    self._ret_stack.append(set())
+                    try:
+                        self._body(w.body, env2, tf.nested.get(w.name) or tf)
+                    finally:
+                        self.depth -= 1
+                        self._ret_stack.pop()
 
     def _join(self, a, b):
         out = dict(a)
@@ -357,6 +414,9 @@ class _Walker(object):
             q = self.index.resolve(self.f.mod, e, scope)
             if q in self.o.byqual or q in self.index.funcs:
                 return FuncVal("qual", q)
+            if q is not None and self.o.is_module_container(q):
+                # a module-level mutable container read inside a function: a view on an object every call shares
+                return frozenset([(("<globalflat>" if self.o._modc.get(q) == "flat" else "<global>") + q, 0, 0, 0)])
             return EMPTY
         if isinstance(e, ast.Attribute):
             base = self._eval(e.value, env, scope)
